@@ -59,6 +59,9 @@ func (p *Prop) Run(line string) core.Outcome {
 func (p *Prop) Generate(rng *core.Rand, tier string, emit func(string)) {
 	g := &gen{rng: rng, prof: p.F.Profile()}
 	run := func(ops []Op) {
+		if _, ok := ParseCase(ShowCase(ops)); !ok {
+			return // the generator produced something outside the protocol (never on purpose)
+		}
 		obs := RunCase(ops, false)
 		for i := range ops {
 			ops[i].Env.PP = obs[i].PP
@@ -71,13 +74,13 @@ func (p *Prop) Generate(rng *core.Rand, tier string, emit func(string)) {
 	for _, ops := range g.enumerated() {
 		run(ops)
 	}
-	n := 110
+	n := 450
 	maxLen := 6
 	switch tier {
 	case "thorough":
-		n, maxLen = 1500, 12
+		n, maxLen = 6000, 12
 	case "search":
-		n, maxLen = 300, 8
+		n, maxLen = 600, 8
 	}
 	for c := 0; c < n; c++ {
 		run(g.history(maxLen))
